@@ -51,7 +51,8 @@ def from_max_simplices(SC):
     max_simplices = SC.edges.maximal()
     H = Hypergraph()
     H.add_nodes_from(SC.nodes)  # to keep node order and isolated nodes
-    H.add_edges_from([list(SC.edges.members(e)) for e in max_simplices])
+    # member sets (not lists): unambiguous for add_edges_from whatever the labels
+    H.add_edges_from([set(SC.edges.members(e)) for e in max_simplices])
     return H
 
 
